@@ -889,7 +889,7 @@ def remap_by_types(
             assert isinstance(t_node, ast.Subscript)
             if isinstance(t_node.value, ast.Tuple):
                 _slice = t_node.slice
-                if not isinstance(_slice, ast.Constant):
+                if not isinstance(_slice, ast.Constant) or not isinstance(_slice.value, int):
                     raise ValueError(
                         f"Slices must be indexable constants only - {ast.dump(_slice)} is not "
                         "valid."
